@@ -65,7 +65,7 @@ func genC16(t *simrt.Tape, tier string) Scenario {
 		n = 17 + t.Choose(40)
 	}
 	for i := 0; i < n; i++ {
-		sc.List = append(sc.List, 10+i*7)
+		sc.List = append(sc.List, i*7) // (the first element is the zero value)
 	}
 	// shuffle lightly so that values are not monotone in the index
 	for i := n - 1; i > 0; i-- {
